@@ -18,7 +18,11 @@ package main
 // shape "mutual":    goroutine 0 = Marshal(*TA), held when TF (the last field's type) is published:
 //                    TC is complete in structEncoderMap (its Back handler is TA's placeholder),
 //                    TA is still half built; goroutine 1 = Marshal(*TC with Back != nil).
-// The witness schedules are C14_registry_linearizable_refuted / _refuted_mutual.
+// shape "same":      both goroutines = Marshal(*TD, Self != nil): goroutine 0 is held when it has published
+//                    TD's placeholder until goroutine 1 has published ITS placeholder for TD (which
+//                    replaces the first in namedStructEncoderMap); then goroutine 1 is held and
+//                    goroutine 0 runs to completion: its handler for Self is goroutine 1's placeholder.
+// The witness schedules are C14_registry_linearizable_refuted / _refuted_mutual / _refuted_same_type.
 // If goroutine 1 does not finish within the watchdog while goroutine 0 is held (a lock on the
 // encoder side makes it wait), goroutine 0 is released and "blocked" is reported.
 
@@ -46,6 +50,9 @@ func runForcedHooked(c *c14Case, obs *c14Obs) {
 	case "mutual":
 		v0, v1 = vals[4], vals[2]
 		holdAt = fmt.Sprintf("TF%03d", c.Group)
+	case "same":
+		runForcedSame(c, obs, vals[5], g.values(c.Seed + 1)[5], fmt.Sprintf("TD%03d", c.Group))
+		return
 	default:
 		obs.Note = "bad shape"
 		return
@@ -97,6 +104,83 @@ func runForcedHooked(c *c14Case, obs *c14Obs) {
 		obs.Blocked = true
 	}
 	close(release)
+	<-d0
+	<-d1
+}
+
+func runForcedSame(c *c14Case, obs *c14Obs, v0, v1 interface{}, holdAt string) {
+	var mu sync.Mutex
+	arrivals := 0
+	second := make(chan struct{})   // closed when the second placeholder is published
+	release1 := make(chan struct{}) // closed when goroutine 0 is done
+	io.VerifYieldHook = func(point string, o interface{}) {
+		if point != "structenc.published" {
+			return
+		}
+		t, ok := o.(reflect.Type)
+		if !ok || t.Name() != holdAt {
+			return
+		}
+		mu.Lock()
+		arrivals++
+		n := arrivals
+		mu.Unlock()
+		switch n {
+		case 1:
+			<-second
+		case 2:
+			close(second)
+			<-release1
+		}
+	}
+	defer func() { io.VerifYieldHook = nil }()
+	obs.Outs = make([]string, 2)
+	obs.Errs = make([]string, 2)
+	run := func(i int, v interface{}, done chan struct{}) {
+		defer close(done)
+		defer func() {
+			if e := recover(); e != nil {
+				obs.Errs[i] = "PANIC:" + fmt.Sprint(e)
+			}
+		}()
+		b, err := io.Formatter{Simple: c.Simple}.Marshal(v)
+		obs.Outs[i], obs.Errs[i] = hex.EncodeToString(b), errText(err)
+	}
+	d0, d1 := make(chan struct{}), make(chan struct{})
+	go run(0, v0, d0)
+	// goroutine 1 starts only when goroutine 0 waits at the yield point (or has finished without reaching it)
+	for waited := 0; waited < 5000; waited++ {
+		mu.Lock()
+		n := arrivals
+		mu.Unlock()
+		if n >= 1 {
+			break
+		}
+		select {
+		case <-d0:
+			waited = 5000
+		case <-time.After(time.Millisecond):
+		}
+	}
+	go run(1, v1, d1)
+	select {
+	case <-d0:
+	case <-time.After(400 * time.Millisecond):
+		// goroutine 0 waits for a lock that goroutine 1 holds while it is held at the yield point
+		obs.Blocked = true
+	}
+	mu.Lock()
+	n := arrivals
+	mu.Unlock()
+	if n < 2 {
+		obs.Note = fmt.Sprintf("only %d goroutines reached the yield point for %s", n, holdAt)
+		select {
+		case <-second:
+		default:
+			close(second)
+		}
+	}
+	close(release1)
 	<-d0
 	<-d1
 }
